@@ -26,6 +26,12 @@ CHECKS = {
 "C08": ("exploration", "Generated multi-line documents (astral, combining, tabs, LF/CRLF, with/without trailing newline) opened in the real harper-ls under 9 language ids; for every diagnostic a codeAction request with its own range and at every char position inside it; oracle = independent LSP position arithmetic: diagnostic range == reference range of the embedded lint, every inside position returns that lint's fixes, each TextEdit applied like a client == Suggestion::apply on the char span; published set == in-process lints for plain/Markdown/HTML/Typst.",
         "Lone CR line ends are outside the property's domain and are not generated.",
         "property-based testing (proptest) against the real server; reference-model oracle"),
+"C09": ("exploration", "Stateful histories of batches of LSP messages against the real harper-ls; the harness owns the schedule by choosing the order in which it answers the handlers' workspace/configuration requests (= completion order of the in-flight handlers). After every batch the last publication of every document is compared with what a second, trivially sequential harper-ls process publishes for the newest text under the current settings and dictionaries (closed/deleted: empty). Four designed-in violations are excluded from the must-hold sub-space by construction and exercised in labelled sub-runs.",
+        "The harness controls handler completion order, not the tokio worker interleaving between two awaits inside the server (sampled by repetition only).",
+        "model-based / differential property testing over scheduled LSP histories (proptest vec(batch) + interpreter)"),
+"C10": ("exploration", "Invariant over strace -f syscall histories of generated harper-ls sessions (every notification and command except HarperOpen, incl. dictionary saves and the statistics write at shutdown; thorough: one TCP-mode session) and of a worker process that pushes generated documents through all front-ends, the harper.js API and statistics export/import: no socket/connect/send/bind/listen beyond the loopback listener, no resolver/TLS files, no exec, and writes only to the configured dictionary and statistics paths. The dependency-set clause is covered by a static cargo-metadata scan reported as an auxiliary.",
+        "strace sees every syscall of the process tree; the dependency scan is a deny-list, not generated-input search.",
+        "property-based testing (proptest) of sessions under a syscall monitor (strace); invariant over the syscall history"),
 "C11": ("exploration", "Additivity of rule switches as a metamorphic relation (lints(S) = lints(A)+lints(B), full singleton decomposition, switching one rule off removes exactly its lints, all-off = nothing), overlay algebra against a map model (fill_with_curated, merge_from, clear, JSON round trip, unknown keys), and the harper.js config path against the in-process model.",
         "Rules are the distinct configuration keys (iter_keys de-duplicated).",
         "metamorphic + model-based property testing (proptest)"),
